@@ -57,6 +57,31 @@ pub fn run(seed: u64, n: usize, scratch: &str, out: &str) -> serde_json::Value {
             violations.push(json!({"prop": "C14", "what": format!("from_path differs from from_bytes on a {}-byte file", content.len()), "known": null,
                 "case": {"len": content.len(), "bytes": short(&content, 60), "settings": settings_json(&s), "from_path": a.first(), "from_bytes": b.first()}}));
         }
+        // the same file reached in other ways: absolute / relative symlink (short target string), link to a link,
+        // hard link, a path through "sub/..": the result must still be that of the complete contents
+        if k % 2 == 0 {
+            let sub = dir.join("via");
+            let _ = std::fs::create_dir_all(&sub);
+            let abs_link = dir.join(format!("l{}", k));
+            let rel_link = dir.join(format!("r{}", k));
+            let link2 = dir.join(format!("ll{}", k));
+            let hard = dir.join(format!("h{}", k));
+            let _ = std::os::unix::fs::symlink(&p, &abs_link);
+            let _ = std::os::unix::fs::symlink(format!("f{}.bin", k), &rel_link);
+            let _ = std::os::unix::fs::symlink(format!("r{}", k), &link2);
+            let _ = std::fs::hard_link(&p, &hard);
+            let dotted = sub.join("..").join(format!("f{}.bin", k));
+            for (how, q) in [("absolute symlink", &abs_link), ("relative symlink", &rel_link), ("symlink to a symlink", &link2), ("hard link", &hard), ("path through sub/..", &dotted)] {
+                evals += 1;
+                *kinds.entry(how.to_string()).or_insert(0u64) += 1;
+                let a2 = real_path(q, &s);
+                if a2 != b {
+                    violations.push(json!({"prop": "C14", "what": format!("from_path through a {} differs from from_bytes on the {}-byte file it names", how, content.len()), "known": null,
+                        "case": {"how": how, "len": content.len(), "bytes": short(&content, 60), "settings": settings_json(&s), "from_path": a2.first(), "from_bytes": b.first()}}));
+                }
+            }
+            for q in [&abs_link, &rel_link, &link2, &hard] { let _ = std::fs::remove_file(q); }
+        }
         if a.len() > 1 {
             nontrivial += 1;
         }
